@@ -7,6 +7,7 @@ import (
 	"os"
 	"path/filepath"
 	"runtime"
+	"strings"
 	"sync"
 
 	"github.com/lindb/lindb/index"
@@ -68,11 +69,22 @@ func (c *callerBuf) scribble() {
 	}
 }
 
+// splitNS: a metric name written "namespace/name" lives in that namespace (compaction family: one namespace per
+// round), any other name in the default one.  Metric ids come from one store-wide sequence whatever the namespace,
+// the key of the trace is the full string.
+func splitNS(name string) (string, string) {
+	if i := strings.IndexByte(name, '/'); i > 0 {
+		return name[:i], name[i+1:]
+	}
+	return idNS, name
+}
+
 func (r *idRun) genMetric(t, name string) (metric.ID, bool) {
 	k := idKey{"metric", 0, name}
 	r.call(t, k, true)
 	var nsb, nb callerBuf
-	id, err := r.db.GenMetricID(nsb.of(idNS), nb.of(name))
+	ns, short := splitNS(name)
+	id, err := r.db.GenMetricID(nsb.of(ns), nb.of(short))
 	nsb.scribble()
 	nb.scribble()
 	if err != nil {
@@ -87,7 +99,8 @@ func (r *idRun) genMetric(t, name string) (metric.ID, bool) {
 func (r *idRun) getMetric(t, name string) {
 	k := idKey{"metric", 0, name}
 	r.call(t, k, false)
-	id, err := r.db.GetMetricID(idNS, name)
+	ns, short := splitNS(name)
+	id, err := r.db.GetMetricID(ns, short)
 	if err != nil {
 		r.ret(t, false, -1)
 		return
@@ -110,7 +123,9 @@ func (r *idRun) genTagKey(t string, mid metric.ID, key string) (tag.KeyID, bool)
 	return id, true
 }
 
-func (r *idRun) genTagValue(t string, kid tag.KeyID, val string) {
+func (r *idRun) genTagValue(t string, kid tag.KeyID, val string) { r.genTagValueID(t, kid, val) }
+
+func (r *idRun) genTagValueID(t string, kid tag.KeyID, val string) (uint32, bool) {
 	k := idKey{"tagvalue", int(kid), val}
 	r.call(t, k, true)
 	var vb callerBuf
@@ -118,10 +133,11 @@ func (r *idRun) genTagValue(t string, kid tag.KeyID, val string) {
 	vb.scribble()
 	if err != nil {
 		r.rec.Emit("Error", trace.F{"op": "GenTagValueID", "err": err.Error()})
-		return
+		return 0, false
 	}
 	r.ret(t, true, int(id))
 	r.note(k)
+	return id, true
 }
 
 func (r *idRun) genField(t string, mid metric.ID, name string) {
@@ -479,6 +495,7 @@ func iddictMain(args []string) int {
 	ni := fs.Int("images", 3, "sequential histories with crash images inside the metadata flush")
 	ng := fs.Int("gated", 40, "gated scenarios (a goroutine parked inside get-or-create)")
 	nl := fs.Int("loop", 0, "index-loop histories (shard index event loop: rows / flush requests under gated schedules, crash, reopen)")
+	ncp := fs.Int("compact", 0, "compaction histories (rounds of create + flush, level-0 compaction of every kv family, re-ask, reopen)")
 	scratch := fs.String("scratch", "", "scratch directory")
 	_ = fs.Parse(args)
 	if *scratch == "" {
@@ -513,6 +530,18 @@ func iddictMain(args []string) int {
 		idSequential(rec, d, rand.New(rand.NewSource(rng.Int63())), h, h < *ni, &nimg)
 		os.RemoveAll(filepath.Dir(d))
 	}
+	// compaction histories (after the sequential ones, before the index-loop ones)
+	// (their own generator: the histories of the other families do not depend on how many of these there are)
+	cpDue, cpDone := 0, 0
+	cprng := rand.New(rand.NewSource(*seed*7919 + 17))
+	for h := 0; h < *ncp; h++ {
+		d := filepath.Join(*scratch, fmt.Sprintf("k%d", h))
+		_ = os.MkdirAll(d, 0o755)
+		due, done := idCompaction(rec, d, rand.New(rand.NewSource(cprng.Int63())), h)
+		cpDue += due
+		cpDone += done
+		os.RemoveAll(d)
+	}
 	// index-loop histories come last: the check addresses the other families by their position in the file
 	stuck, blocked := 0, 0
 	for h := 0; h < *nl; h++ {
@@ -526,6 +555,9 @@ func iddictMain(args []string) int {
 	sum.Distinct = sum.Traces
 	sum.Extra["images"] = nimg
 	sum.Extra["loop_histories"] = *nl
+	sum.Extra["compact_histories"] = *ncp
+	sum.Extra["compact_jobs_due"] = cpDue
+	sum.Extra["compact_jobs_done"] = cpDone
 	sum.Extra["loop_stuck"] = stuck
 	sum.Extra["loop_blocked"] = blocked
 	sum.Print()
